@@ -1,0 +1,79 @@
+//go:build verif
+
+package gitindex
+
+import (
+	"sort"
+
+	"github.com/go-git/go-git/v5/plumbing"
+
+	git "github.com/go-git/go-git/v5"
+)
+
+// Verification hook (C13); not part of the normal build.
+
+// VerifFile is one entry of the (path, blob) => branches map computed by prepareDeltaBuild / prepareNormalBuild.
+// Branches is the slice exactly as stored in the map (order and duplicates preserved).
+type VerifFile struct {
+	SubRepoPath string
+	Path        string
+	ID          string
+	Branches    []string
+}
+
+// VerifPrepared records what the prepare step of one indexGitRepo run computed.
+type VerifPrepared struct {
+	DeltaCalled  bool
+	DeltaErr     string // non-empty: prepareDeltaBuild failed and the run fell back to a normal build
+	DeltaFiles   []VerifFile
+	Changed      []string // changedOrDeletedPaths as returned (sorted, de-duplicated by the real code)
+	NormalCalled bool
+	NormalFiles  []VerifFile
+}
+
+func verifFiles(repos map[fileKey]BlobLocation) []VerifFile {
+	out := make([]VerifFile, 0, len(repos))
+	for k, v := range repos {
+		out = append(out, VerifFile{SubRepoPath: k.SubRepoPath, Path: k.Path, ID: k.ID.String(), Branches: append([]string(nil), v.Branches...)})
+	}
+	sort.Slice(out, func(i, j int) bool {
+		a, b := out[i], out[j]
+		if a.SubRepoPath != b.SubRepoPath {
+			return a.SubRepoPath < b.SubRepoPath
+		}
+		if a.Path != b.Path {
+			return a.Path < b.Path
+		}
+		return a.ID < b.ID
+	})
+	return out
+}
+
+// VerifIndexGitRepo runs the real indexGitRepo with spies around the real prepareDeltaBuild and
+// prepareNormalBuild, so that the harness sees their results in the very run that writes the shards.
+func VerifIndexGitRepo(opts Options) (bool, *VerifPrepared, error) {
+	p := &VerifPrepared{}
+	cfg := gitIndexConfig{
+		prepareDeltaBuild: func(options Options, repository *git.Repository) (map[fileKey]BlobLocation, map[string]map[string]plumbing.Hash, []string, error) {
+			p.DeltaCalled = true
+			repos, bv, changed, err := prepareDeltaBuild(options, repository)
+			if err != nil {
+				p.DeltaErr = err.Error()
+			} else {
+				p.DeltaFiles = verifFiles(repos)
+				p.Changed = append([]string(nil), changed...)
+			}
+			return repos, bv, changed, err
+		},
+		prepareNormalBuild: func(options Options, repository *git.Repository) (map[fileKey]BlobLocation, map[string]map[string]plumbing.Hash, error) {
+			p.NormalCalled = true
+			repos, bv, err := prepareNormalBuild(options, repository)
+			if err == nil {
+				p.NormalFiles = verifFiles(repos)
+			}
+			return repos, bv, err
+		},
+	}
+	ok, err := indexGitRepo(opts, cfg)
+	return ok, p, err
+}
